@@ -33,6 +33,10 @@ Theorem C19_config_independent_refuted_F24_race : ~ config_independent_statement
 Proof. exact config_independent_refuted_F24_race. Qed.
 Print Assumptions C19_config_independent_refuted_F24_race.
 
+Theorem C19_config_independent_refuted_F24_iter_race : ~ config_independent_statement.
+Proof. exact config_independent_refuted_F24_iter_race. Qed.
+Print Assumptions C19_config_independent_refuted_F24_iter_race.
+
 Theorem C19_config_independent_refuted_purge_while_swapped : ~ config_independent_statement.
 Proof. exact config_independent_refuted_purge. Qed.
 Print Assumptions C19_config_independent_refuted_purge_while_swapped.
@@ -53,6 +57,8 @@ Print Assumptions C20_queue_length_refuted.
        unflushed in a store's pending add map (F24);
      - no purge while swapped to disk (F24, second trigger);
      - no push lands inside a loader turn (label LoaderRace: the loader holds no lock; F24, race);
+     - the data race on lastIteratedMsgID does not fire (label LoaderIterRace; F24, iteration race): LoaderTurn is the
+       schedule in which each iteration goroutine compares its own last id;
      - a pop finds the ring empty only when nothing waits on disk (scheduling: consumers are woken by pushes into the
        ring; a pop on an empty ring is not a delivery attempt a client can see);
    and client well-formedness [wf_client] (ids positive and increasing as amqp.GenerateSeq makes them; only delivered,
